@@ -207,7 +207,10 @@ def install_crypto(reg):
         a = (f["password"].z, f["idSymmetric"].z, f["msg1"].z, m2.z)
         if it.ctx.branch(z3.Not(F_FINOK()(*a)), "spake2.finish"):
             it.ctx.event("spake2.finish.rejected", m2)
-            it.raise_("SPAKEError", VStr("bad side / reflection / not a group element"))
+            # observed natively: ReflectionThwarted (a SPAKEError) for the own message, ValueError for a
+            # non-element, AssertionError for an empty / wrong-side message
+            which = it.ctx.choose([z3.BoolVal(True)] * 3, "spake2.finish.exception")
+            it.raise_(["SPAKEError", "ValueError", "AssertionError"][which], VStr("finish() rejected the peer message"))
         k = F_FINISH()(*a)
         it.ctx.assume(z3.Length(k) == 32)
         it.ctx.event("spake2.finish", m2, VStr(k, "bytes"))
@@ -641,8 +644,9 @@ TRUSTED_CRYPTO = [
     "nonce must be 24 bytes; decrypt(c) either raises CryptoError or returns p with c == c[:24] ++ seal(k, c[:24], p) "
     "(INT-CTXT in functional form); decrypt(encrypt(p)) == p (ground instances)",
     "nacl.utils.random(n): n fresh bytes",
-    "spake2.SPAKE2_Symmetric(pw, idSymmetric): start() returns fresh bytes; finish(m) either raises or returns the 32-byte "
-    "value spake2_finish(pw, id, own message, m)",
+    "spake2.SPAKE2_Symmetric(pw, idSymmetric): start() returns fresh bytes; finish(m) either raises (SPAKEError for a "
+    "reflected message, ValueError for a non-element, AssertionError for an empty / wrong-side message: observed natively) "
+    "or returns the 32-byte value spake2_finish(pw, id, own message, m)",
     "json.dumps/json.loads: loads(dumps(v)) == v (ground instances); loads raises JSONDecodeError (a ValueError) on anything else it rejects",
     "binascii.hexlify/unhexlify: lower-case hex digits, twice the length, unhexlify(hexlify(b)) == b (ground instances)",
     "str.encode('utf-8') / bytes.decode('utf-8'): mutually inverse where defined; ascii codec is the identity on code points 0..127",
